@@ -13,6 +13,7 @@ import alg
 from alg import Expr, ZERO, ONE, as_expr
 from front import AnalysisError, dotted_name
 import interp as I_
+import ivec as IV
 from interp import Arr, SymArr, Tup, Unknown, BOT, Opaque, FuncRef, ModRef, Pred, BoolCombo, Member, SliceV, RangeV, LevelStore, PyList, SetV, GenList
 
 
@@ -124,8 +125,39 @@ def _elements_of(x, n=None):
     return None
 
 
+def _ivec_binop(I, op, a, b, node):
+    """index vector (+|-|%) integer scalar"""
+    if isinstance(a, Arr) and a.meta.get("ivec") is not None and isinstance(b, Expr) and a.ndim == 1:
+        iv = a.meta["ivec"]
+        if isinstance(op, ast.Add):
+            niv = iv.shift(b)
+        elif isinstance(op, ast.Sub):
+            niv = iv.shift(-b)
+        elif isinstance(op, ast.Mod):
+            segs = []
+            for l, st in iv.segs:
+                end = (st + l).expand()
+                if alg._lead_negative(st.expand()) and (end.is_zero() or alg._lead_negative(end)):
+                    segs.append((l, st + b))  # a run of negative indices
+                elif not alg._lead_negative(st.expand()):
+                    segs.append((l, st))  # taken to lie in [0, N): checked when the vector is used
+                else:
+                    return None
+            niv = IV.IVec(segs)
+        else:
+            return None
+        return niv
+    if isinstance(b, Arr) and b.meta.get("ivec") is not None and isinstance(a, Expr) and isinstance(op, ast.Add):
+        return b.meta["ivec"].shift(a)
+    return None
+
+
 def elementwise(I, op, a, b, node):
     _note_carried(I, node, a, b)
+    niv = _ivec_binop(I, op, a, b, node)
+    if niv is not None:
+        src = a if isinstance(a, Arr) else b
+        return Arr(src.shape, Unknown("index vector"), "int", {"ivec": niv})
     ea = _elements_of(a)
     eb = _elements_of(b)
     if (ea is not None and isinstance(a, Arr)) or (eb is not None and isinstance(b, Arr)):
@@ -221,6 +253,8 @@ def _note_carried(I, node, *xs):
 
 def elementwise_compare(I, sym, a, b, node):
     _note_carried(I, node, a, b)
+    if isinstance(a, Arr) and a.meta.get("ivec") is not None and isinstance(b, Expr) and a.ndim == 1:
+        return Arr(a.shape, Unknown("comparison of an index vector"), "bool", {"ivec_cmp": (a.meta["ivec"], sym, b)})
     sa = a.shape if isinstance(a, Arr) else ()
     sb = b.shape if isinstance(b, Arr) else ()
     shape = broadcast(I, sa, sb, node)
@@ -423,10 +457,97 @@ def _index_can_wrap(I, e):
     return None
 
 
+def _grid_index_vectors(arr, items):
+    """(ivec for the second-to-last axis, ivec for the last axis) when the two horizontal axes of arr are indexed by
+    index vectors (np.ix_ style or a[..., rows[:, None], cols]) and every other axis by a full slice"""
+    real = [it for it in items if it is not None]
+    if arr.ndim < 2 or len(real) != arr.ndim:
+        return None
+    if not all(isinstance(it, SliceV) and it.is_full() for it in real[:-2]):
+        return None
+    y, x = real[-2], real[-1]
+    if not (isinstance(y, Arr) and isinstance(x, Arr) and y.meta.get("ivec") is not None and x.meta.get("ivec") is not None):
+        return None
+    # outer-product indexing: the row vector must be opened along the first of the two axes
+    oy, ox = y.meta.get("open_axis"), x.meta.get("open_axis")
+    if y.ndim == 2 and x.ndim == 2:
+        if not (oy == 0 and ox == 1):
+            return None
+    elif y.ndim == 2 and x.ndim == 1:
+        if oy != 0:
+            return None
+    else:
+        return None  # a[rows, cols] with two 1-D vectors pairs the entries instead of forming the outer product
+    return y.meta["ivec"], x.meta["ivec"]
+
+
+def _index_gather(I, arr, items, node):
+    """spectrum[np.ix_(ky, kx)]: the retained modes picked by index vectors.  When both vectors are exactly the retained
+    modes of the symmetric low-pass window, this is fftshift -> centre slice -> ifftshift, and is given that typestate."""
+    gv = _grid_index_vectors(arr, items)
+    if gv is None:
+        return None
+    ivy, ivx = gv
+    spec = arr.meta.get("spec")
+    Ny, Nx = arr.shape[-2], arr.shape[-1]
+    ny_, nx_ = IV.as_simple(I, ivy.length()), IV.as_simple(I, ivx.length())
+    shape = tuple(arr.shape[:-2]) + (ny_, nx_)
+    if spec is None or spec.layout != "nat" or any(not c.is_zero() for c in (spec.cut or ())):
+        return Arr(shape, Unknown("index gather on an array that is not a complete spectrum in natural order"), arr.dtype, {})
+    verdicts = []
+    for iv, n, N, ax in ((ivy, ny_, Ny, "y"), (ivx, nx_, Nx, "x")):
+        ok, why = IV.compare(I, iv, IV.trunc_map(n, N), N)
+        verdicts.append((ok, why, ax))
+    if any(ok is None for ok, _, _ in verdicts):
+        return Arr(shape, Unknown("index gather whose index vectors could not be compared with the retained modes (%s)" % "; ".join(str(w) for ok, w, _ in verdicts if ok is None)), arr.dtype, {})
+    bad = [(w, ax) for ok, w, ax in verdicts if ok is False]
+    if bad:
+        for w, ax in bad:
+            I.event("typestate", node, "the modes gathered along %s are not the symmetric low-pass window of the spectrum: %s" % (ax, w))
+        return Arr(shape, Unknown("gather of other modes than the retained ones"), arr.dtype, {})
+    # the equivalent chain, so that every rule sees the usual typestate and events
+    two = alg.const(2)
+    dy = I.scalar_binop(ast.FloorDiv(), (Ny - ny_).expand(), two, node)
+    dx = I.scalar_binop(ast.FloorDiv(), (Nx - nx_).expand(), two, node)
+    kw = {} if arr.ndim == 2 else {"axes": Tup([alg.const(arr.ndim - 2), alg.const(arr.ndim - 1)])}
+    r = fftshift(I, [arr], kw, node)
+    lead = [SliceV(None, None, None)] * (arr.ndim - 2)
+    r = load(I, r, lead + [SliceV(dy, Ny - dy, None), SliceV(dx, Nx - dx, None)], node, {})
+    if not isinstance(r, Arr):
+        return r
+    r = ifftshift(I, [r], kw, node)
+    if isinstance(r, Arr):
+        r = r.copy()
+        r.shape = shape
+    return r
+
+
 def load(I, arr, idx, node, env):
     if arr.shape is None:
         return Unknown("subscript of array with unknown shape")
     items = _expand_index(I, arr, idx, node)
+    iv = arr.meta.get("ivec")
+    if iv is not None and arr.ndim == 1:
+        real = [it for it in items if it is not None]
+        if len(real) == 1 and isinstance(real[0], SliceV) and real[0].step is None:
+            sl = real[0]
+            if sl.is_full():
+                # a[:, None] / a[None, :]: the same index vector, opened along one axis of an outer index
+                if any(it is None for it in items):
+                    pos = [k for k, it in enumerate(items) if it is not None][0]
+                    shp = tuple(arr.shape[0] if k == pos else ONE for k in range(len(items)))
+                    return Arr(shp, arr.val, arr.dtype, {"ivec": iv, "open_axis": pos})
+            else:
+                lo = sl.lo if sl.lo is not None else ZERO
+                hi = sl.hi if sl.hi is not None else arr.shape[0]
+                a1 = iv.split(lo)
+                if a1 is not None:
+                    a2 = a1[1].split(hi - lo)
+                    if a2 is not None:
+                        return Arr(((hi - lo).expand(),), Unknown("index vector"), arr.dtype, {"ivec": a2[0], "slice1d": (sl.lo, sl.hi, arr)})
+    g = _index_gather(I, arr, items, node)
+    if g is not None:
+        return g
     if arr.meta.get("carried"):
         I.event("loop-carried-read", node, "%s holds what earlier iterations of the loop at line %d left in it" % arr.meta["carried"])
     for it in items:
@@ -626,11 +747,79 @@ def _single_atom(x):
     return None
 
 
+def _index_scatter(I, arr, items, v, node):
+    """full[..., rows[:, None], cols] = truncated spectrum  into a zero array: the inverse of the retained-mode gather,
+    i.e. fftshift -> symmetric zero padding -> ifftshift when the index vectors are the retained modes"""
+    gv = _grid_index_vectors(arr, items)
+    if gv is None:
+        return None
+    ivy, ivx = gv
+    new = arr.copy()
+    new.meta = dict(arr.meta)
+    zero_target = isinstance(arr.val, Expr) and arr.val.is_zero() and arr.meta.get("spec") is None and not arr.meta.get("partial_store")
+    vs = v.meta.get("spec") if isinstance(v, Arr) else None
+    if not zero_target or (vs is not None and vs.layout != "nat") or not isinstance(v, Arr) or v.ndim != arr.ndim:
+        new.val = Unknown("index scatter that is not the embedding of a truncated spectrum into zeros")
+        return new
+    Ny, Nx = arr.shape[-2], arr.shape[-1]
+    ny_, nx_ = v.shape[-2], v.shape[-1]
+    verdicts = []
+    for iv, n, N, ax in ((ivy, ny_, Ny, "y"), (ivx, nx_, Nx, "x")):
+        if not iv.length().eq(n):
+            verdicts.append((False, "%s index vector has %r entries for %r modes" % (ax, iv.length(), n), ax))
+            continue
+        ok, why = IV.compare(I, iv, IV.trunc_map(n, N), N)
+        verdicts.append((ok, why, ax))
+    if any(ok is None for ok, _, _ in verdicts):
+        new.val = Unknown("index scatter whose index vectors could not be compared with the retained modes")
+        return new
+    bad = [(w, ax) for ok, w, ax in verdicts if ok is False]
+    if bad:
+        for w, ax in bad:
+            I.event("typestate", node, "the retained modes are scattered along %s to other places than their own wavenumbers: %s" % (ax, w))
+        new.val = Unknown("scatter of the retained modes to other places")
+        return new
+    two = alg.const(2)
+    dy = I.scalar_binop(ast.FloorDiv(), (Ny - ny_).expand(), two, node)
+    dx = I.scalar_binop(ast.FloorDiv(), (Nx - nx_).expand(), two, node)
+    kw = {} if v.ndim == 2 else {"axes": Tup([alg.const(v.ndim - 2), alg.const(v.ndim - 1)])}
+    r = fftshift(I, [v], kw, node)
+    widths = [Tup([ZERO, ZERO])] * (v.ndim - 2) + [Tup([dy, dy]), Tup([dx, dx])]
+    r = np_pad(I, [r, Tup(widths)], {"mode": "constant", "constant_values": ZERO}, node)
+    if not isinstance(r, Arr):
+        new.val = Unknown("index scatter")
+        return new
+    r = ifftshift(I, [r], kw, node)
+    if isinstance(r, Arr):
+        r = r.copy(name=arr.name)
+        r.shape = arr.shape
+        r.dtype = arr.dtype
+    return r
+
+
 def store(I, arr, idx, v, node, env):
     if arr.shape is None:
         I.event("unsupported", node, "store into array of unknown shape")
         return None
     items = _expand_index(I, arr, idx, node)
+    iv = arr.meta.get("ivec")
+    if iv is not None and arr.ndim == 1 and len(items) == 1 and isinstance(items[0], SliceV) and items[0].step is None and isinstance(v, Arr) and v.meta.get("ivec") is not None:
+        sl = items[0]
+        lo = sl.lo if sl.lo is not None else ZERO
+        hi = sl.hi if sl.hi is not None else arr.shape[0]
+        a1 = iv.split(lo)
+        a2 = a1[1].split(hi - lo) if a1 is not None else None
+        if a2 is not None:
+            new = arr.copy()
+            new.meta = dict(arr.meta)
+            new.meta["ivec"] = a1[0].concat(v.meta["ivec"]).concat(a2[1])
+            new.meta.pop("gen", None)
+            new.meta.pop("arange", None)
+            new.val = Unknown("index vector")
+            return new
+    sc = _index_scatter(I, arr, items, v, node)
+    if sc is not None:
+        return sc
     # x[1:] = x[:-1] on an array of inclusive prefix sums (numpy copies overlapping ranges as if through a temporary):
     # everything moves one place to the right, entry 0 stays; resetting entry 0 afterwards gives the exclusive prefix sums
     if (arr.ndim == 1 and len(items) == 1 and isinstance(items[0], SliceV) and const_int(items[0].lo) == 1 and items[0].hi is None and items[0].step is None
@@ -788,8 +977,11 @@ def store(I, arr, idx, v, node, env):
                 new.val = sv - cs[0].args[0]  # zeros, then shifted right by one: the exclusive prefix sum  cumsum(s) - s
             else:
                 new.val = alg.fn("shifted", sv)
-        elif isinstance(new.val, Expr) and isinstance(sv, Expr):
+        elif isinstance(new.val, Expr) and isinstance(sv, Expr) and arr.ndim == 1:
             new.val = alg.fn("upd", new.val, sv)
+        elif isinstance(new.val, Expr) and isinstance(sv, Expr):
+            # a block of a multi-dimensional array overwritten: which entries hold what is not modelled
+            new.val = Unknown("%s assembled by partial stores (line %s)" % (arr.name or "array", getattr(node, "lineno", "?")))
         else:
             new.val = Unknown("array after a partial store of %r" % (v,))
         new.meta.pop("gen", None)
@@ -1143,6 +1335,29 @@ def builtin(I, name, args, kwargs, node, env):
         if isinstance(args[0], SetV):
             return SetV(args[0].items)
         return Unknown("set(%r)" % (args[0],))
+    if name in ("any", "all"):
+        x = args[0]
+        if isinstance(x, Tup) and x.kind != "dict" and not any(isinstance(i, GenList) for i in x.items):
+            preds = []
+            for i in x.items:
+                if isinstance(i, Expr):
+                    i = I.cmp_expr(i, "!=")
+                elif i is None:
+                    i = False
+                elif isinstance(i, (str, Tup)):
+                    i = bool(i if isinstance(i, str) else i.items)
+                if not isinstance(i, (bool, Pred, BoolCombo)):
+                    return Unknown("%s() over %r" % (name, i))
+                preds.append(i)
+            if all(isinstance(p, bool) for p in preds):
+                return any(preds) if name == "any" else all(preds)
+            short = [p for p in preds if not isinstance(p, bool)]
+            if name == "any" and any(p is True for p in preds):
+                return True
+            if name == "all" and any(p is False for p in preds):
+                return False
+            return BoolCombo("or" if name == "any" else "and", short)
+        return Unknown("%s(%r)" % (name, x))
     if name == "sorted":
         x = args[0]
         if isinstance(x, Tup) and x.kind == "dict":
@@ -1528,8 +1743,13 @@ def np_arange(I, args, kwargs, node):
     else:
         a, b, s = xs
     n = alg.fn("ceil", (b - a) / s, integer=True, pos=True)
+    if s.eq(ONE):
+        n = (b - a).expand()
     idx = alg.fn("idx", n, integer=True)
-    return Arr((n,), a + idx * s, "float", {"gen": (lambda k, a=a, s=s: a + k * s), "arange": (a, b, s)})
+    meta = {"gen": (lambda k, a=a, s=s: a + k * s), "arange": (a, b, s)}
+    if s.eq(ONE):
+        meta["ivec"] = IV.arange(n, a)
+    return Arr((n,), a + idx * s, "float", meta)
 
 
 def unary(f, dtype=None):
@@ -1551,6 +1771,17 @@ def np_where(I, args, kwargs, node):
     if len(args) != 3:
         return Unknown("np.where (1-arg form)")
     c, a, b = args
+    cmpm = c.meta.get("ivec_cmp") if isinstance(c, Arr) else None
+    if cmpm is not None and isinstance(a, Arr) and isinstance(b, Arr) and a.meta.get("ivec") is not None and b.meta.get("ivec") is not None:
+        iv, sym, thr = cmpm
+        # j < t (or j <= t-1) over j = 0 .. n-1: the first t entries come from a, the rest from b
+        if len(iv.segs) == 1 and iv.segs[0][1].is_zero() and sym in ("<", "<=", ">=", ">"):
+            t = thr if sym in ("<", ">=") else thr + ONE
+            first, second = (a, b) if sym in ("<", "<=") else (b, a)
+            sa, sb = first.meta["ivec"].split(t), second.meta["ivec"].split(t)
+            if sa is not None and sb is not None:
+                return Arr(a.shape, Unknown("index vector"), "int", {"ivec": sa[0].concat(sb[1])})
+        return Arr(a.shape, Unknown("np.where on index vectors"), "int", {})
     cv = val_of(c)
     if cv is BOT:
         return BOT
@@ -1826,6 +2057,19 @@ def np_reduce(name):
     return h
 
 
+def np_ix_(I, args, kwargs, node):
+    out = []
+    n = len(args)
+    for k, a in enumerate(args):
+        if not (isinstance(a, Arr) and a.ndim == 1):
+            return Unknown("np.ix_")
+        shp = tuple(a.shape[0] if j == k else ONE for j in range(n))
+        m = {key: a.meta[key] for key in ("ivec",) if key in a.meta}
+        m["open_axis"] = k
+        out.append(Arr(shp, a.val, a.dtype, m))
+    return Tup(out)
+
+
 def np_roll(I, args, kwargs, node):
     x, shift = args[0], _kw(args, kwargs, 1, "shift")
     if isinstance(x, Arr) and x.ndim == 1 and isinstance(x.val, Expr) and isinstance(shift, Expr) and kwargs.get("axis") is None:
@@ -1885,10 +2129,24 @@ def _spec_axes_ok(I, x, kwargs, node, fname):
             I.event("typestate", node, "%s over axes %r, spectral axes are %r" % (fname, got, grid_axes(x)))
 
 
+def _shift_1d(I, x, name):
+    """fftshift / ifftshift of an index vector or another plain 1-D array: a rotation, no Fourier-layout typestate"""
+    iv = x.meta.get("ivec")
+    if iv is not None:
+        L = x.shape[0]
+        h = I.scalar_binop(ast.FloorDiv(), L, alg.const(2), None)
+        r = iv.roll_left(L - h if name == "fftshift" else h)
+        if r is not None:
+            return Arr(x.shape, Unknown("index vector"), x.dtype, {"ivec": r})
+    return Arr(x.shape, Unknown("%s of a 1-D array" % name), x.dtype, {})
+
+
 def fftshift(I, args, kwargs, node):
     x = args[0]
     if not isinstance(x, Arr):
         return Unknown("fftshift")
+    if x.ndim == 1 and x.meta.get("spec") is None:
+        return _shift_1d(I, x, "fftshift")
     _spec_axes_ok(I, x, kwargs, node, "fftshift")
     spec = x.meta.get("spec") or Spec("nat", None)
     if spec.layout != "nat":
@@ -1903,6 +2161,8 @@ def ifftshift(I, args, kwargs, node):
     x = args[0]
     if not isinstance(x, Arr):
         return Unknown("ifftshift")
+    if x.ndim == 1 and x.meta.get("spec") is None:
+        return _shift_1d(I, x, "ifftshift")
     _spec_axes_ok(I, x, kwargs, node, "ifftshift")
     spec = x.meta.get("spec") or Spec("nat", None)
     if spec.layout != "cen":
@@ -2028,6 +2288,7 @@ EXT = {
     "numpy.linspace": np_linspace,
     "numpy.arange": np_arange,
     "numpy.roll": np_roll,
+    "numpy.ix_": np_ix_,
     "numpy.max": np_reduce("max"),
     "numpy.amax": np_reduce("max"),
     "numpy.min": np_reduce("min"),
